@@ -337,7 +337,10 @@ def payload_size(ctx, kind="bytes", maxchars=3):
 
             pl = MP.MultipartWriter("mixed", boundary="b")
             pl.append_payload(P.BytesPayload(text.encode(), headers={"X-Name": "n-" + text.replace("\n", " ")}))
-            pl.append_payload(P.StringPayload(text))
+            # the second part may ask for a transfer encoding: the encoded form is what goes on the wire
+            # and what the declared size has to count
+            te = ctx.pick("part_transfer_encoding", [None, "base64", "quoted-printable", "binary"])
+            pl.append_payload(P.StringPayload(text, headers={"Content-Transfer-Encoding": te} if te else None))
             data = None
         else:  # json
             pl = P.JsonPayload({"k": text})
@@ -364,7 +367,8 @@ def payload_size(ctx, kind="bytes", maxchars=3):
             # (no independent rendering of the multipart wire here - that is C19; the claim is the size)
             if size is not None and cl is None and size != len(out):
                 return False, "inv:payload-size", {"key": "payload-declared-size-differs-from-bytes-written:multipart",
-                                                   "text": text, "declared_size": size, "written": len(out)}
+                                                   "text": text, "declared_size": size, "written": len(out),
+                                                   "part_transfer_encoding": te}
             return True, "payload:full", None
         want = data if cl is None else data[:cl]
         key = None
